@@ -116,6 +116,13 @@ type EscCase struct {
 	// WriteFailAfter >= 0: after the session is open the transport fails every write after that
 	// many more succeeded.
 	WriteFailAfter int `json:"write_fail_after"`
+	// InOnOpen: the escalation runs as the driver's on-open step (as platform definitions do), so
+	// its error, if any, is reported through the driver's own logging.
+	InOnOpen bool `json:"in_on_open,omitempty"`
+	// ReadFault ("", eof, err): the connection is lost after ReadFaultAfter more device bytes
+	// (counted from the start of the operation, or from connect when it runs in on-open).
+	ReadFault      string `json:"read_fault,omitempty"`
+	ReadFaultAfter int    `json:"read_fault_after,omitempty"`
 }
 
 func genEsc(t *rapid.T) EscCase {
@@ -129,6 +136,10 @@ func genEsc(t *rapid.T) EscCase {
 		Op:          rapid.SampledFrom([]string{"acquire", "command", "configs"}).Draw(t, "op"),
 
 		WriteFailAfter: rapid.SampledFrom([]int{-1, -1, -1, 0, 1, 2, 3, 4, 5, 6}).Draw(t, "writeFailAfter"),
+
+		InOnOpen:       rapid.Bool().Draw(t, "inOnOpen"),
+		ReadFault:      rapid.SampledFrom([]string{"", "", "eof", "err"}).Draw(t, "readFault"),
+		ReadFaultAfter: rapid.IntRange(0, 90).Draw(t, "readFaultAfter"),
 	}
 }
 
@@ -238,46 +249,79 @@ func runEsc(c EscCase) ev.Verdict {
 		"configuration": {Name: "configuration", Pattern: `(?im)^core1\(config\)#\s*$`, PreviousPriv: "enable", Escalate: "configure terminal", Deescalate: "end"},
 	}
 
-	d, err := network.NewDriver("sim",
+	doOp := func(d *network.Driver) error {
+		var operr error
+
+		switch c.Op {
+		case "acquire":
+			operr = d.AcquirePriv("enable")
+		case "command":
+			_, operr = d.SendCommand("show version Q")
+		default:
+			_, operr = d.SendConfigs([]string{"hostname core1 Q"})
+		}
+
+		return operr
+	}
+
+	dopts := []util.Option{
 		options.WithCustomTransport(pipe),
 		options.WithReadDelay(time.Duration(c.ReadDelayNS)),
-		options.WithTimeoutOps(time.Duration(c.ReadDelayNS)*200000),
+		options.WithTimeoutOps(time.Duration(c.ReadDelayNS) * 200000),
 		options.WithPrivilegeLevels(levels),
 		options.WithDefaultDesiredPriv("enable"),
 		options.WithAuthSecondary(c.Secret),
 		options.WithLogger(li),
 		options.WithChannelLog(col),
-	)
+	}
+
+	faultKind := map[string]string{"eof": sim.FaultEOF, "err": sim.FaultErr}[c.ReadFault]
+
+	if c.InOnOpen {
+		dopts = append(dopts, options.WithNetworkOnOpen(doOp))
+
+		if c.WriteFailAfter >= 0 {
+			pipe.WriteFailAfter = c.WriteFailAfter
+		}
+
+		if faultKind != "" {
+			pipe.FaultKind, pipe.FaultAt = faultKind, c.ReadFaultAfter
+		}
+	}
+
+	d, err := network.NewDriver("sim", dopts...)
 	if err != nil {
 		return ev.Fail("NewDriver: %v", err)
 	}
 
+	defer pipe.Release()
+
 	if err = d.Open(); err != nil {
-		return ev.Fail("Open: %v", err)
+		if !c.InOnOpen || (c.WriteFailAfter < 0 && faultKind == "" && c.Behaviour == "asks") {
+			return ev.Fail("Open: %v", err)
+		}
+	} else {
+		defer func() { _ = d.Close() }()
 	}
 
-	defer pipe.Release()
-	defer func() { _ = d.Close() }()
+	if !c.InOnOpen {
+		if c.WriteFailAfter >= 0 {
+			n := 0
 
-	if c.WriteFailAfter >= 0 {
-		n := 0
-
-		for _, e := range pipe.Events() {
-			if e.Kind == "w" {
-				n++
+			for _, e := range pipe.Events() {
+				if e.Kind == "w" {
+					n++
+				}
 			}
+
+			pipe.WriteFailAfter = n + c.WriteFailAfter
 		}
 
-		pipe.WriteFailAfter = n + c.WriteFailAfter
-	}
+		if faultKind != "" {
+			pipe.SetFault(faultKind, c.ReadFaultAfter)
+		}
 
-	switch c.Op {
-	case "acquire":
-		_ = d.AcquirePriv("enable")
-	case "command":
-		_, _ = d.SendCommand("show version Q")
-	default:
-		_, _ = d.SendConfigs([]string{"hostname core1 Q"})
+		_ = doOp(d)
 	}
 
 	if l := leak(c.Secret, col.sinks()); l != "" {
@@ -285,6 +329,21 @@ func runEsc(c EscCase) ev.Verdict {
 	}
 
 	v := ev.Verdict{OK: true, Classes: []string{"behaviour=" + c.Behaviour, "level=" + c.LogLevel}}
+
+	if c.InOnOpen {
+		v.Classes = append(v.Classes, "in-on-open")
+	}
+
+	if faultKind != "" {
+		v.NonTrivial = true
+		v.Classes = append(v.Classes, "read-fault")
+
+		if secretsSeen > 0 {
+			v.Classes = append(v.Classes, "lost-after-secret-was-sent")
+		}
+
+		return v
+	}
 
 	if c.WriteFailAfter >= 0 {
 		v.NonTrivial = true
